@@ -354,7 +354,12 @@ def _triage_sat(reg_c, oid, kind, clause, pc, goal, st, r, pnames, altdesc, time
         last_wit = wit
         d = {'id': oid, 'kind': kind, 'clause': clause, 'witness': jsonable(wit)}
         verdict = None
-        if wit is not None:
+        if wit is not None and st.ghost.get('abstract_choices'):
+            # the path depends on choices made by abstract callee MODELS (a decode() that may or may not raise, an arbitrary member of
+            # a decoded structure ...): they are not inputs, so running the real function on the entry values says nothing about
+            # this counter-model (DESIGN 2.7: inner state / callee havoc -> reported, no failing input found)
+            d['replay_error'] = 'the path depends on choices of abstract callee models (%s), which are not inputs' % st.ghost['abstract_choices']
+        elif wit is not None:
             try:
                 rp.replay_violation(reg, c, d)
                 verdict = True if d.get('replayed') else (False if d.get('replay') is not None else None)
